@@ -309,6 +309,10 @@ func (c16) Eval(env *Env, c *Case) []Violation {
 		if o.Name == "exit" {
 			continue
 		}
+		if env.Expired() {
+			env.Probe("case-cut-short-by-deadline")
+			break
+		}
 		class := opClass(o, wrote)
 		ens := c16Errnos[class]
 		// kill before the op
